@@ -34,6 +34,8 @@ Ltac rt :=
     | rewrite run_ret
     | rewrite run_pmap
     | rewrite run_tick_alloc
+    | rewrite run_tick_alloc_capped
+    | rewrite run_tick_hm_capped
     | rewrite run_read_string_enc by rt_side
     | rewrite run_read_string_list_enc by rt_side
     | rewrite run_read_short_bytes_enc by rt_side
@@ -353,7 +355,7 @@ Proof.
     - destruct Wrmid as [-> Wx]. rewrite run_pmap, run_read_short_bytes_enc by exact Wx. reflexivity.
     - rewrite Wrmid. reflexivity. }
   rewrite Ermid. rt. unfold deser_prepared_metadata. rt.
-  rewrite run_tick_alloc_capped. rt.
+  rewrite ?run_tick_alloc_capped. rt.
   rewrite <- (pk_wire_len pk).
   rewrite (run_repeatN_enc read_short enc_short (pk_wire pk)).
   2:{ eapply Forall_impl; [|apply pk_wire_forall; exact Hpk]. intros v Hv r'. apply run_read_short_enc. exact Hv. }
